@@ -125,3 +125,51 @@ func VerifC16_PrefixIterate() {
 	zz.Assert("C16.prefix.iterate-readonly", vstore.SameContent(parent, before))
 	zz.Reach("C16.prefix.iterate")
 }
+
+type vNopWriter struct{}
+
+func (vNopWriter) Write(p []byte) (int, error) { return len(p), nil }
+
+// VerifC16_PrefixStacking: a prefix store wrapped by CacheWrap / CacheWrapWithTrace (cache over [trace over] prefix
+// over parent) and a prefix store over a gas store: operations and the final Write still touch only parent keys
+// prefix||key, reads see only the prefixed keys.
+func VerifC16_PrefixStacking() {
+	parent := vParent(2, 2)
+	p := vKey("p", 1, 2)
+	st := NewStore(parent, p)
+	model := parent.Clone()
+	var cw types.CacheWrap
+	switch zz.Choice("stack", 2) {
+	case 0:
+		cw = st.CacheWrap()
+	case 1:
+		cw = st.CacheWrapWithTrace(vNopWriter{}, types.TraceContext{})
+	}
+	kv := cw.(types.KVStore)
+	k := vKey("k", 0, 2)
+	full := append(append([]byte{}, p...), k...)
+	before := parent.Clone()
+	switch zz.Choice("op", 3) {
+	case 0:
+		got := kv.Get(k)
+		zz.Assert("C16.stack.get", bytes.Equal(got, model.Get(full)) && (got == nil) == (model.Get(full) == nil))
+	case 1:
+		kv.Set(k, []byte{0x55})
+		model.Set(full, []byte{0x55})
+	case 2:
+		kv.Delete(k)
+		model.Delete(full)
+	}
+	// iteration through the stack sees exactly the prefixed keys of the overlay view
+	var want []vstore.KV
+	for _, e := range model.Sorted(nil, nil) {
+		if bytes.HasPrefix(e.K, p) {
+			want = append(want, vstore.KV{K: e.K[len(p):], V: e.V})
+		}
+	}
+	zz.Assert("C16.stack.iterate", vstore.EqualKVs(vstore.Drain(kv.Iterator(nil, nil)), want))
+	zz.Assert("C16.stack.parent-untouched-before-write", vstore.SameContent(parent, before))
+	cw.Write()
+	zz.Assert("C16.stack.write-touches-only-prefixed-key", vstore.SameContent(parent, model))
+	zz.Reach("C16.stack")
+}
